@@ -135,6 +135,11 @@ def check(repo: Repo, R) -> None:
                                            "an instance bundle displaced by a signal of its name stays in `instbundles`; elaborating it pops the designer's signal out of the namespace, and the next invented name equal to it is handed out unsuffixed: two nets become one"))
       finally:
         _sh5.ATTACHING.pop()
+    # the child resolved a clash of a flattened member's name its own way (`b_x_`): the parent connects by the name the child
+    # ended up with, never by deriving it again
+    from . import c01 as _c01
+    R.run(_c01.bundle_conn_path, repo, _sh5.Retag(R, lambda r, k: "C05.1-inserted-names-are-fresh" if k.endswith("replace_bundle_conn::connect") else None,
+                                                 "the parent re-derives `b_x` for a member the child had to name `b_x_`: the designer's own connection to the child's port `b_x` is overwritten and the member's port left open"), "C01.4-bundle-reconnect-by-path")
     R.floor(rule, 5)  # 6 on the reference tree; two sites may legitimately share one flatname call
 
     # ---- flatname only returns checked names
